@@ -35,11 +35,14 @@ Ltac np_go2 := repeat first [idx_np | np_step].
 (* element values: with the limit 64 the three functions nest at most 2 * 65 + 1 frames           *)
 Definition ev_need (f : evf) (nesting : N) : nat :=
   match f with
-  | EvUnnamedS => 2 * (65 - N.to_nat nesting) + 1
-  | _ => 2 * (65 - N.to_nat nesting)
+  | EvUnnamed => 2 * (65 - N.to_nat nesting)
+  | _ => 2 * (65 - N.to_nat nesting) + 1
   end.
 Definition ev_ok (f : evf) (nesting : N) : Prop :=
   match f with EvUnnamed => nesting <= 64 | _ => nesting <= 65 end.
+
+Lemma np_bind_lift_done {A B} (x : A) (f : A -> M B) : np (f x) -> np (bindM (lift (Done x)) f).
+Proof. intros H c. unfold bindM, lift. apply H. Qed.
 
 Lemma np_ev_value rec p tag nesting :
   nesting <= 64 ->
@@ -48,9 +51,54 @@ Lemma np_ev_value rec p tag nesting :
 Proof.
   intros Hn H1 H2. unfold ev_value.
   assert (Hu : usize_add nesting 1 = Done (nesting + 1)) by (apply usize_add_small; unfold usize_max; lia).
-  rewrite Hu.
-  repeat match goal with
-  | |- np (if ?b then _ else _) => destruct b
-  end; np_go; try exact H1; try exact H2.
-  all: match goal with |- np (rec _ ?a) => cbn [lift] in *; idtac end.
-Abort.
+  repeat first
+    [ match goal with |- np (bindM (lift (usize_add _ _)) _) => rewrite Hu; apply np_bind_lift_done; first [exact H1|exact H2] end
+    | np_step ].
+Qed.
+
+Lemma np_ev p : forall fuel f nesting, ev_ok f nesting -> (ev_need f nesting <= fuel)%nat -> np (ev fuel p f nesting).
+Proof.
+  induction fuel as [|fu IH]; intros f nesting Hok Hf.
+  - exfalso. destruct f; cbn [ev_need ev_ok] in *; lia.
+  - cbn [ev]. destruct f; cbn [ev_need ev_ok] in *.
+    + unfold max_ev_nesting. destruct (N.ltb_spec 64 nesting) as [Hlt|Hge]; [apply np_fail|].
+      apply np_bind; [exact np_rd_u16|intros n]. apply np_iterN_.
+      apply np_bind; [exact np_rd_u16|intros nm]. apply np_bind; [apply np_lift; auto with npdb|intros _].
+      apply np_bind; [exact np_rd_u8|intros tag].
+      apply np_ev_value; [exact Hge| |]; apply IH; cbn [ev_need ev_ok]; lia.
+    + unfold max_ev_nesting. destruct (N.ltb_spec 64 nesting) as [Hlt|Hge]; [apply np_fail|].
+      apply np_bind; [exact np_rd_u16|intros n]. apply np_iterN_.
+      apply IH; cbn [ev_need ev_ok]; lia.
+    + apply np_bind; [exact np_rd_u8|intros tag].
+      apply np_ev_value; [exact Hok| |]; apply IH; cbn [ev_need ev_ok]; lia.
+Qed.
+Lemma np_read_element_values_named p : np (read_element_values_named p).
+Proof. apply np_ev; [cbn [ev_ok]; lia|apply Nat.leb_le; vm_compute; reflexivity]. Qed.
+Lemma np_read_element_value_unnamed p : np (read_element_value_unnamed p).
+Proof. apply np_ev; [cbn [ev_ok]; lia|apply Nat.leb_le; vm_compute; reflexivity]. Qed.
+#[export] Hint Resolve np_read_element_values_named np_read_element_value_unnamed : npdb.
+
+(* fuel is immaterial: the limit, not the stack, ends a deep nesting (a chain of 66 arrays is refused) *)
+
+Lemma np_read_annotations p : np (read_annotations p).
+Proof. unfold read_annotations. np_go2. Qed.
+Lemma np_read_type_path : np read_type_path.
+Proof.
+  unfold read_type_path. apply np_bind; [exact np_rd_u8|intros n]. apply np_iterN_.
+  apply np_bind; [exact np_rd_u8|intros kind]. apply np_bind; [exact np_rd_u8|intros idx].
+  destruct (N.leb_spec kind 2) as [Hle|Hgt].
+  - (* the inner match is exhaustive for 0, 1, 2 *)
+    assert (H : (kind =? 0) || (kind =? 1) || (kind =? 2) = true).
+    { destruct (N.eqb_spec kind 0); [reflexivity|]. destruct (N.eqb_spec kind 1); [reflexivity|].
+      destruct (N.eqb_spec kind 2); [reflexivity|]. lia. }
+    rewrite H. np_go.
+  - np_go.
+Qed.
+Lemma np_read_target_info level : np (read_target_info level).
+Proof. unfold read_target_info. np_go. Qed.
+#[export] Hint Resolve np_read_annotations np_read_type_path np_read_target_info : npdb.
+Lemma np_read_type_annotations level p : np (read_type_annotations level p).
+Proof. unfold read_type_annotations. np_go2. Qed.
+Lemma np_read_module p : np (read_module p).
+Proof. unfold read_module. np_go2. Qed.
+#[export] Hint Resolve np_read_type_annotations np_read_module : npdb.
